@@ -105,6 +105,7 @@ class Interp:
         *,
         bindings: Optional[Dict[Sym, Any]] = None,
         aliases: Optional[Dict[Sym, Sym]] = None,
+        alias_fn: Optional[Callable[[Sym], Optional[Sym]]] = None,
         loop_roles: Optional[Callable[[Sym, int], Optional[List[Sym]]]] = None,
         inline: Optional[Dict[str, Tuple[Module, ast.FunctionDef]]] = None,
         assume: Optional[Dict[Sym, bool]] = None,
@@ -123,6 +124,7 @@ class Interp:
             self.consts.update(extra_consts)
         self.bindings = {k: freeze(v) for k, v in (bindings or {}).items()}
         self.aliases = aliases or {}
+        self.alias_fn = alias_fn
         self.loop_roles = loop_roles
         self.inline = inline or {}
         self.assume = dict(assume or {})
@@ -239,6 +241,10 @@ class Interp:
             return ("c", self.bindings[s])
         if s in self.aliases:
             return self.aliases[s]
+        if self.alias_fn is not None:
+            r = self.alias_fn(s)
+            if r is not None:
+                return r
         return s
 
     def bind(self, name: str, value: Sym, aug: bool = False) -> None:
@@ -456,7 +462,13 @@ class Interp:
         self.emit("store", (tgt, v), st)
 
     def _rewrite_value(self, v: Sym) -> Sym:
-        return self.aliases.get(v, v)
+        if v in self.aliases:
+            return self.aliases[v]
+        if self.alias_fn is not None:
+            r = self.alias_fn(v)
+            if r is not None:
+                return r
+        return v
 
     # conditions ----------------------------------------------------------
     def truth(self, node: ast.AST) -> bool:
